@@ -1,3 +1,4 @@
+import RossModel.Lemmas.SourceTie
 import RossModel.Lemmas.Run
 import RossModel.Lemmas.Transparent
 import RossModel.Lemmas.Packet
@@ -45,5 +46,9 @@ example : (⟨false, 0x0101, [1, 2, 3, 4, 5, 6, 7, 8, 9, 10, 11, 12, 13, 14]⟩ 
        data := [1, 1, 2, 3, 4, 5, 6, 7] },
      { notError := true, start := false, multi := true, idLast := false, fid := 1, addr := 0x0101, dataLen := 8,
        data := [1, 8, 9, 10, 11, 12, 13, 14] }] := by decide
+
+/-! ### tie to the source text (constants regenerated from /repo by `bin/extract` on every run) -/
+/-- the model's `toFrames` is `to_frames` with the constants that stand in `src/packet.rs` (lengths 0..=30) -/
+theorem C10_src_fragmentation : SrcTie.fragOk = true := by decide
 
 end Ross.Props
